@@ -16,6 +16,13 @@ def build(tier):
     return groups, meta
 
 
+def replay(g, o, assigns, path):
+    """Skeleton counterexamples are paths, not inputs: the replay searches the structured family of real inputs/histories of
+    replay_src/solver_replay.cpp (mode 'history') on the REAL solvers."""
+    from vlib import replay as RP
+    return RP.run_native(PROP, RP.src("solver_replay.cpp"), args=['history'], timeout=900)
+
+
 MANIFEST = {
     "category": "proof",
     "text": 'Unbounded proof of the structural clauses: advertised dimension k after init (1), after factorize_from(_, m) (m), after each compress_H (k-1 / k-2) and after restart (ncv); factorize_from is only entered at the step at which (V,H,f) is valid (typestate ghost) in every init/compute history; ncv-k shifts per restart. The numerical identities are NOT decided.',
